@@ -460,24 +460,47 @@ impl std::ops::Neg for Quantity {
     }
 }
 
+impl Quantity {
+    /// Compares two quantities in a way that does not depend on the order of the
+    /// operands: each operand is converted to the unit of the other one, and both
+    /// comparisons have to agree. If they disagree, the two quantities only differ
+    /// by floating point rounding errors of the conversions, and are considered equal.
+    ///
+    /// Returns `Err(())` if the units are incompatible and `Ok(None)` if one of the
+    /// values is NaN.
+    fn symmetric_partial_cmp(
+        &self,
+        other: &Self,
+    ) -> std::result::Result<Option<std::cmp::Ordering>, ()> {
+        use std::cmp::Ordering;
+
+        let in_own_unit = other
+            .convert_to(self.unit())
+            .map(|other_converted| self.value.partial_cmp(&other_converted.value));
+        let in_other_unit = self
+            .convert_to(other.unit())
+            .map(|self_converted| self_converted.value.partial_cmp(&other.value));
+
+        match (in_own_unit, in_other_unit) {
+            (Ok(Some(cmp1)), Ok(Some(cmp2))) if cmp1 == cmp2 => Ok(Some(cmp1)),
+            (Ok(Some(_)), Ok(Some(_))) => Ok(Some(Ordering::Equal)),
+            (Ok(None), _) | (_, Ok(None)) => Ok(None),
+            // Only one direction is possible if one of the values is zero
+            (Ok(cmp), Err(_)) | (Err(_), Ok(cmp)) => Ok(cmp),
+            (Err(_), Err(_)) => Err(()),
+        }
+    }
+}
+
 impl PartialEq for Quantity {
     fn eq(&self, other: &Self) -> bool {
-        if let Ok(other_converted) = other.convert_to(self.unit()) {
-            self.value == other_converted.value
-        } else {
-            false
-        }
+        self.symmetric_partial_cmp(other) == Ok(Some(std::cmp::Ordering::Equal))
     }
 }
 
 impl PartialOrd for Quantity {
     fn partial_cmp(&self, other: &Self) -> Option<std::cmp::Ordering> {
-        match other.convert_to(self.unit()) {
-            Ok(other_converted) => self.value.partial_cmp(&other_converted.value),
-            // A zero quantity can be converted to every unit (see `convert_to`)
-            Err(_) if self.is_zero() => self.value.partial_cmp(&other.value),
-            Err(_) => None,
-        }
+        self.symmetric_partial_cmp(other).ok().flatten()
     }
 }
 
@@ -505,17 +528,11 @@ impl Quantity {
             return QuantityOrdering::NanOperand;
         }
 
-        let (lhs_value, rhs_value) = match other.convert_to(self.unit()) {
-            Ok(other_converted) => (self.value, other_converted.value),
-            // A zero quantity can be converted to every unit (see `convert_to`), so
-            // `0 < 2 m` has to work just like `2 m > 0` does.
-            Err(_) if self.is_zero() => (self.value, other.value),
-            Err(_) => return QuantityOrdering::IncompatibleUnits,
+        let Ok(cmp) = self.symmetric_partial_cmp(other) else {
+            return QuantityOrdering::IncompatibleUnits;
         };
 
-        let cmp = lhs_value
-            .partial_cmp(&rhs_value)
-            .expect("unexpectedly got a None partial_cmp from non-NaN arguments");
+        let cmp = cmp.expect("unexpectedly got a None partial_cmp from non-NaN arguments");
 
         QuantityOrdering::Ok(cmp)
     }
